@@ -939,13 +939,34 @@ def namedtuple_cases(ctx):
 
 
 # ------------------------------------------------------------------------------------------ Batch strata
-def batch_frames(n):
+def batch_frames(n, naming='equal'):
+    '''Explicit (label, Frame) pairs.  naming: how Frame.name relates to the Batch label -- 'equal' (name == label), 'none' (unnamed),
+    'swapped' (frame i carries the label of frame i+1), 'same' (every frame is named 'Z').  A function that is handed the container's
+    name instead of the Batch label gives another answer for every naming but 'equal'.'''
     import static_frame as sf
     out = []
     for i in range(n):
         a = np.array([[50 + 11 * i, 51 + 11 * i], [52 + 11 * i, 53 + 11 * i]], dtype=np.int64)
-        out.append((f'L{i}', sf.Frame(a, index=('p', 'q'), columns=('x', 'y'), name=f'L{i}')))
+        name = {'equal': f'L{i}', 'none': None, 'swapped': (f'L{(i + 1) % n}' if n > 1 else 'X0'), 'same': 'Z'}[naming]
+        out.append((f'L{i}', sf.Frame(a, index=('p', 'q'), columns=('x', 'y'), name=name)))
     return out
+
+
+def rename_step(fr):
+    '''A name-changing step of a chained Batch (runs through the pool too; not scheduled).'''
+    return fr.rename('R')
+
+
+def pre_step(batch, pre):
+    '''The earlier step of a chained Batch: None, 'rename' (containers renamed), 'sum' (containers reduced to unnamed Series).'''
+    if pre == 'rename':
+        return batch.apply(rename_step)
+    if pre == 'sum':
+        return batch.sum()
+    return batch
+
+
+BATCH_VARIANTS = [('equal', None), ('none', None), ('swapped', None), ('same', None), ('equal', 'rename'), ('equal', 'sum'), ('swapped', 'sum')]
 
 
 def observe_batch(batch):
@@ -956,14 +977,14 @@ def observe_batch(batch):
     return out
 
 
-def run_batch(items, op, kind, k, c, pi, fails, digests, nonfatal):
+def run_batch(items, op, kind, k, c, pi, fails, digests, nonfatal, pre=None):
     import static_frame as sf
 
     def attempt(check=True):
         S = install(digests, kind, 1 if (kind == 'threads' or op.endswith('except')) else c, pi, fails, nonfatal=nonfatal) if pi is not None else None
         ran = True
         try:
-            b = sf.Batch(iter(items), max_workers=k, chunksize=c, use_threads=(kind == 'threads'))
+            b = pre_step(sf.Batch(iter(items), max_workers=k, chunksize=c, use_threads=(kind == 'threads')), pre)
             if op.endswith('except'):
                 try:
                     b2 = getattr(b, op)(pool_task, ValueError)
@@ -984,10 +1005,10 @@ def run_batch(items, op, kind, k, c, pi, fails, digests, nonfatal):
     return retrying(attempt)
 
 
-def run_batch_seq(items, op, fails):
+def run_batch_seq(items, op, fails, pre=None):
     import static_frame as sf
     try:
-        b = sf.Batch(iter(items))
+        b = pre_step(sf.Batch(iter(items)), pre)
         if op in ('apply', 'apply_except'):
             fn = lambda fr: seq_task(fails, fr)  # noqa
         else:
@@ -998,16 +1019,23 @@ def run_batch_seq(items, op, fails):
         return False, err_name(e)
 
 
-def batch_cases(ctx, kind, sizes, ks, fail_mode, rot, cs_fn):
+def batch_cases(ctx, kind, sizes, ks, fail_mode, rot, cs_fn, variants=(('equal', None),), reduced=False):
+    import static_frame as sf
     for n in sizes:
-        items = batch_frames(n)
-        cpairs = [(canon(l), canon(fr)) for l, fr in items]
+      for naming, pre in variants:
+        items = batch_frames(n, naming)
+        # what the operation under test is applied to: the (label, container) pairs after the earlier step of the chain
+        effective = list(pre_step(sf.Batch(iter(items)), pre).items()) if pre else items
+        cpairs = [(canon(l), canon(fr)) for l, fr in effective]
+        vname = naming + ('+' + pre if pre else '')
         for op in ('apply', 'apply_items', 'apply_except', 'apply_items_except'):
             items_form = 'items' in op
             is_except = op.endswith('except')
             digests = [digest((l, fr) if items_form else fr) for l, fr in cpairs]
             seq_cache = {}
             for c, kset in cs_fn(n, ks):
+                if reduced and c != 1 and (kind == 'threads' or is_except):
+                    continue
                 refused = is_except and c != 1
                 m = n if (kind == 'threads' or is_except) else n_futures(n, c, kind)
                 for k in kset:
@@ -1015,10 +1043,10 @@ def batch_cases(ctx, kind, sizes, ks, fail_mode, rot, cs_fn):
                     for pi in pis:
                         for fails in fail_patterns(digests, fail_mode, rot):
                             nonfatal = ('ValueError',) if is_except else ()
-                            ok, payload = run_batch(items, op, kind, k, c, pi, fails, digests, nonfatal)
+                            ok, payload = run_batch(items, op, kind, k, c, pi, fails, digests, nonfatal, pre)
                             fkey = tuple(sorted(fails.items()))
                             if fkey not in seq_cache:
-                                seq_cache[fkey] = run_batch_seq(items, op, fails)
+                                seq_cache[fkey] = run_batch_seq(items, op, fails, pre)
                             sok, spayload = seq_cache[fkey]
                             py_fail = None
                             if ok != sok or (ok and payload != spayload):
@@ -1033,14 +1061,15 @@ def batch_cases(ctx, kind, sizes, ks, fail_mode, rot, cs_fn):
                                 mterm = (f'c18_batch_M {lit.b(items_form)} {fails_lit(fails)} {kind_lit(kind)} {lit.z(k)} {lit.z(c)} {nat_list(choices)} '
                                          f'{ditems_lit(cpairs)} {obs}')
                                 sterm = f'c18_batch_S {lit.b(items_form)} {fails_lit(fails)} {ditems_lit(cpairs)} {obs}'
-                            tags = {'op': 'Batch.' + op, 'kind': kind}
+                            tags = {'op': 'Batch.' + op, 'kind': kind, 'naming': vname}
                             if refused:
                                 # in the finding's class by construction: an *_except form with chunksize != 1
                                 tags['finding'] = FINDING_EXCEPT_CHUNK
-                            ctx.count(f'batch:{op}', f'batch:kind:{kind}', f'batch:n:{n}', f'batch:k:{k}', f'batch:c:{c}', f'batch:fails:{len(fails)}')
+                            ctx.count(f'batch:naming:{vname}', f'batch:{op}', f'batch:kind:{kind}', f'batch:n:{n}', f'batch:k:{k}', f'batch:c:{c}', f'batch:fails:{len(fails)}')
                             yield Case(f'api:batch-{kind}:{op}',
-                                       {'call': f'Batch(items, max_workers={k}, chunksize={c}, use_threads={kind == "threads"}).{op}(f{", ValueError" if is_except else ""}).items()',
-                                        'items': repr(cpairs), 'completion_order': list(pi) if pi is not None else 'not run',
+                                       {'call': (f'Batch(pairs, max_workers={k}, chunksize={c}, use_threads={kind == "threads"})' + {None: '', 'rename': ".apply(lambda f: f.rename('R'))", 'sum': '.sum()'}[pre]
+                                                 + f'.{op}(f{", ValueError" if is_except else ""}).items()'),
+                                        'pairs': f'explicit (label, Frame) pairs, Frame.name {naming} to the label', 'items': repr(cpairs), 'completion_order': list(pi) if pi is not None else 'not run',
                                         'failing_digests': {str(d): v for d, v in fails.items()},
                                         'observed': [ok, repr(payload)], 'sequential': [sok, repr(spayload)]},
                                        m=mterm, s=sterm, py_fail=py_fail, tags=tags, nontrivial=(m >= 2 or bool(fails)))
@@ -1445,8 +1474,13 @@ def _cases(ctx):
     yield from namedtuple_cases(ctx)
     yield from free_cases(ctx)
     # Batch
-    yield from batch_cases(ctx, 'threads', (0, 1, 2, 3) if quick else (0, 1, 2, 3, 4), ks, 'full' if not quick else 'light', rot, cs_threads)
+    yield from batch_cases(ctx, 'threads', (2, 0, 1, 3) if quick else (2, 0, 1, 3, 4), ks, 'full' if not quick else 'light', rot, cs_threads)
+    # Frame.name unrelated to the Batch label (explicit pairs: unnamed / swapped / all equal) and chained Batches after a name-changing step
+    yield from batch_cases(ctx, 'threads', (2, 3) if quick else (1, 2, 3, 4), [2, 3] if quick else [1, 2, 3, 4], 'light', rot, cs_threads,
+                           variants=BATCH_VARIANTS[1:], reduced=True)
     yield from batch_cases(ctx, 'procs', (2, 3) if quick else (1, 2, 3, 4), [1, 2, 3] if quick else [1, 2, 3, 4, 8], 'light', rot, cs_all)
+    yield from batch_cases(ctx, 'procs', (2,) if quick else (2, 3), [2] if quick else [2, 3], 'light', rot, cs_all,
+                           variants=(BATCH_VARIANTS[2], BATCH_VARIANTS[5]) if quick else BATCH_VARIANTS[1:], reduced=True)
     yield from batch_attr_cases(ctx)
     # zipped stores
     tmp = tempfile.mkdtemp(prefix='c18_')
